@@ -242,7 +242,8 @@ Definition apply_stage (st : pstate) (s : stage V) : pstate :=
     mkPS (ps_src st) (compose (ps_par st) s) (ps_params st)
          (ps_clog st) (ps_consumed st) (ps_runs st).
 
-Inductive op := OStage (s : stage V) | ONumThreads (n : N) | OChunkSize (n : N).
+(** [num_threads(n)] / [chunk_size(n)] with a [usize] (0 = Auto), or [chunk_size(ChunkSize::Min(n))] *)
+Inductive op := OStage (s : stage V) | ONumThreads (n : N) | OChunkSize (n : N) | OChunkMin (n : N).
 
 Definition apply_op (st : pstate) (o : op) : pstate :=
   match o with
@@ -252,6 +253,9 @@ Definition apply_op (st : pstate) (o : op) : pstate :=
            (ps_clog st) (ps_consumed st) (ps_runs st)
   | OChunkSize n =>
       mkPS (ps_src st) (ps_par st) (with_chunk_size (ps_params st) (cs_of_usize n))
+           (ps_clog st) (ps_consumed st) (ps_runs st)
+  | OChunkMin n =>
+      mkPS (ps_src st) (ps_par st) (with_chunk_size (ps_params st) (CSMin n))
            (ps_clog st) (ps_consumed st) (ps_runs st)
   end.
 
@@ -283,4 +287,4 @@ Definition run_log (st : pstate) : clog := calls (flat_map (trace (ps_par st)) (
 End Pipeline.
 
 Arguments PEmpty {V}.
-Arguments OStage {V}. Arguments ONumThreads {V}. Arguments OChunkSize {V}.
+Arguments OStage {V}. Arguments ONumThreads {V}. Arguments OChunkSize {V}. Arguments OChunkMin {V}.
